@@ -4,7 +4,7 @@ import json, subprocess
 hook_commits = ["6e56b58"]
 checks = {
  "C01": dict(cat="exploration", ref="DESIGN.md §4 C01",
-   text="Seeded search over (7 parsers x literal types x config flags) x (grammar-valid / mutated / arbitrary inputs) x (constructors, chunk sizes 1..16384) x (read plans down to 1 byte per read, boundary-targeted cuts, Interrupted bursts): the full transcript (items, clean end or error kind, line, column, message) must equal that of the same parser fed by a one-shot source. AIGER section readers also run under early-exit patterns (the caller leaves sections before their end), parsers are also built on an already advanced reader, and a second component (C01g) uses documents with one item of 64..160 MiB. Evidence, not proof: partitions of an input are exponential, they are sampled. The components are additionally executed (smaller cases, separate seeded stream) by the Miri interpreter emulating a big-endian 64-bit target (s390x) and a 32-bit target (i686); model violations and undefined behaviour there are violations.",
+   text="Seeded search over (7 parsers x literal types x config flags) x (grammar-valid / mutated / arbitrary inputs) x (constructors, chunk sizes 1..16384) x (read plans down to 1 byte per read, boundary-targeted cuts, Interrupted bursts): the full transcript (items, clean end or error kind, line, column, message) must equal that of the same parser fed by a one-shot source. AIGER section readers also run under early-exit patterns (the caller leaves sections before their end), parsers are also built on an already advanced reader, and a second component (C01g) uses documents with one item of 64..160 MiB. Evidence, not proof: partitions of an input are exponential, they are sampled. The components are additionally executed (smaller cases, separate seeded stream) by the Miri interpreter emulating a big-endian 64-bit target (s390x), a 32-bit target (i686) and aarch64; model violations and undefined behaviour there are violations.",
    note="Differential against the same code under the trivial schedule; trusted: SimSource, std BufReader. A defect that shows under every schedule alike is by construction not reported here (that is C05/C06 territory).",
    tech="deterministic simulation: real parsers over a simulated Read seam with seeded short reads / EINTR / chunk sizes, differential against the one-shot schedule"),
  "C04": dict(cat="fault_enumeration", ref="DESIGN.md §4 C04",
@@ -12,15 +12,15 @@ checks = {
    note="Trusted: SimSource's record of whether the failing read() was issued; the fault-free run of the same parser as reference.",
    tech="deterministic simulation with fault injection: terminal read error injected at every offset of each sampled input, checked against the fault-free run"),
  "C02": dict(cat="exploration", ref="DESIGN.md §4 C02",
-   text="Seeded search over operation histories x read schedules x constructors on the real DeferredReader, each checked after every operation against a Vec+cursor reference model (window content, position, mark, flags, parked error, request results); EINTR storms of up to 100000 consecutive Interrupted results, chunk sizes up to 4 MiB; a second component (C02m) streams more than 2^32 bytes through one reader and checks position(), mark() and window content at every record. Evidence, not proof: histories are sampled, not enumerated. The components are additionally executed (smaller cases, separate seeded stream) by the Miri interpreter emulating a big-endian 64-bit target (s390x) and a 32-bit target (i686); model violations and undefined behaviour there are violations.",
+   text="Seeded search over operation histories x read schedules x constructors on the real DeferredReader, each checked after every operation against a Vec+cursor reference model (window content, position, mark, flags, parked error, request results); EINTR storms of up to 100000 consecutive Interrupted results, chunk sizes up to 4 MiB; a second component (C02m) streams more than 2^32 bytes through one reader and checks position(), mark() and window content at every record. Evidence, not proof: histories are sampled, not enumerated. The components are additionally executed (smaller cases, separate seeded stream) by the Miri interpreter emulating a big-endian 64-bit target (s390x), a 32-bit target (i686) and aarch64; model violations and undefined behaviour there are violations.",
    note="Trusted: the simulated source's own log (bytes delivered), std's BufReader/Chain/Cursor, the reference model (~100 lines). Both native builds (debug assertions + overflow checks on / off).",
    tech="deterministic simulation: seeded operation histories on the real reader over a simulated Read seam, reference-model refinement check after every step"),
  "C08": dict(cat="exploration", ref="DESIGN.md §4 C08",
-   text="Two clauses under seeded constructors, chunk sizes and read plans (locations depend on mark/line bookkeeping that interacts with refills). (a) Range: every SyntaxError of all seven parsers on valid, mutated and arbitrary inputs must lie inside the input. (b) Exact: grammar-valid documents corrupted at one generator-known token with a corruption from an unambiguous catalogue must be rejected on that token's line with the column on the token. Sampled, not exhaustive. The components are additionally executed (smaller cases, separate seeded stream) by the Miri interpreter emulating a big-endian 64-bit target (s390x) and a 32-bit target (i686); model violations and undefined behaviour there are violations.",
+   text="Two clauses under seeded constructors, chunk sizes and read plans (locations depend on mark/line bookkeeping that interacts with refills). (a) Range: every SyntaxError of all seven parsers on valid, mutated and arbitrary inputs must lie inside the input. (b) Exact: grammar-valid documents corrupted at one generator-known token with a corruption from an unambiguous catalogue must be rejected on that token's line with the column on the token. Sampled, not exhaustive. The components are additionally executed (smaller cases, separate seeded stream) by the Miri interpreter emulating a big-endian 64-bit target (s390x), a 32-bit target (i686) and aarch64; model violations and undefined behaviour there are violations.",
    note="Trusted: the generators' token spans (validated: every generated document parses to a clean end) and the catalogue's claim that the grammar leaves no other place for the error. Binary AIGER uses the weakened range rule (0x0a bytes in the and-gate section are data).",
    tech="deterministic simulation: real parsers over a simulated Read seam with seeded chunking; absolute range oracle plus generator-known token spans"),
  "C09": dict(cat="exploration", ref="DESIGN.md §4 C09",
-   text="Parser level: grammar-valid documents of the six streaming parsers are served by a simulated line-buffered peer that releases the next line only after it has been handed every item completed by the lines released so far; a read() while an item is owed is a deadlock of that protocol (= waiting for bytes beyond the completing line). Reader level: on seeded operation histories the source's call log is checked for exactly one successful read per refill, no read when buffered data suffices, none after EOF/error.",
+   text="Parser level: grammar-valid documents of the six streaming parsers are served by a simulated line-buffered peer that releases the next line only after it has been handed every item completed by the lines released so far; a read() while an item is owed is a deadlock of that protocol (= waiting for bytes beyond the completing line). Reader level: on seeded operation histories the source's call log is checked for exactly one successful read per refill, no read when buffered data suffices, none after EOF/error. The components are additionally executed (smaller cases, separate seeded stream) by the Miri interpreter emulating a big-endian 64-bit target (s390x), a 32-bit target (i686) and aarch64; model violations and undefined behaviour there are violations.",
    note="Trusted: item completion offsets from the generators (validated against the number of handed-out items), the peer, the source log.",
    tech="deterministic simulation: two-party lock-step protocol between a simulated line-buffered producer and the real streaming parsers; read-call accounting on the simulated source"),
  "C10": dict(cat="exploration", ref="DESIGN.md §4 C10",
@@ -28,19 +28,19 @@ checks = {
    note="Trusted: the counting allocator (wraps System), the bound's constants (>= 2x slack over the reader's own policy; a leak must grow by more than 1/8 byte per streamed byte to be seen at the minimum stream length).",
    tech="deterministic simulation: unbounded generated source + counting allocator, peak live heap checked against a stream-length-independent bound at every item"),
  "C11": dict(cat="exploration", ref="DESIGN.md §4 C11",
-   text="Seeded search over operation histories x sink behaviours (accept-all, short writes incl. gathering write_vectored, Interrupted incl. storms of up to 100000, Ok(0), errors at any call; the writer may be dropped while the thread unwinds from an unrelated panic) x buffer capacities (0..300 via the verif hook, and the shipped 16 KiB) on the real DeferredWriter, checked step by step against a byte-stream model and the sink's call log; the real format writers are part of the workload. Evidence, not proof. The components are additionally executed (smaller cases, separate seeded stream) by the Miri interpreter emulating a big-endian 64-bit target (s390x) and a 32-bit target (i686); model violations and undefined behaviour there are violations.",
+   text="Seeded search over operation histories x sink behaviours (accept-all, short writes incl. gathering write_vectored, Interrupted incl. storms of up to 100000, Ok(0), errors at any call; the writer may be dropped while the thread unwinds from an unrelated panic) x buffer capacities (0..300 via the verif hook, and the shipped 16 KiB) on the real DeferredWriter, checked step by step against a byte-stream model and the sink's call log; the real format writers are part of the workload. Evidence, not proof. The components are additionally executed (smaller cases, separate seeded stream) by the Miri interpreter emulating a big-endian 64-bit target (s390x), a 32-bit target (i686) and aarch64; model violations and undefined behaviour there are violations.",
    note="Trusted: std::fmt for expected integer text, std::io::Write::write_all, the model. Failing-sink 'selection' clause is a subsequence match over random payload bytes (see evidence assumptions).",
    tech="deterministic simulation: seeded operation histories on the real writer over a simulated Write seam with injected short writes / EINTR / errors, reference byte-stream model"),
  "C14": dict(cat="exploration", ref="DESIGN.md §4 C14",
-   text="Operation histories of C02 and C11 extended with crash operations: advance/advance_with_buf past the buffer (documented panic, caught, object used again), sources that claim more bytes than offered or panic, sinks that lie or panic. Oracle 1 (both native builds): after every caught panic the reference model still matches (buf_len checked before buf() is touched), nothing reaches the sink that was not written, and a 64-byte red zone behind every heap block (harness allocator) is intact. Oracle 1b (both native builds): scanner cases and parser drives are executed under several 'poison' bytes that the simulated source scribbles over the unused part of every offered slice; results must not depend on the poison (stale bytes). Oracle 2: the same kinds of histories plus scanner cases (buffered amount aimed at the 8-byte load boundary) and parser drives (tiny btor2/cnf/aag/aig/satlog documents under small chunks) under Miri in 16 parallel interpreter processes; any 'Undefined Behavior' report is a violation. A native part that is killed by a signal is re-run with one worker and the run in progress is reported as C14.crash; a run that never returns is <P>.hang.",
+   text="Operation histories of C02 and C11 extended with crash operations: advance/advance_with_buf past the buffer (documented panic, caught, object used again), sources that claim more bytes than offered or panic, sinks that lie or panic. Oracle 1 (both native builds): after every caught panic the reference model still matches (buf_len checked before buf() is touched), nothing reaches the sink that was not written, and a 64-byte red zone behind every heap block (harness allocator) is intact. Oracle 1b (both native builds): scanner cases and parser drives are executed under several 'poison' bytes that the simulated source scribbles over the unused part of every offered slice; results must not depend on the poison (stale bytes). Oracle 2: the same kinds of histories plus scanner cases (buffered amount aimed at the 8-byte load boundary) and parser drives (tiny btor2/cnf/aag/aig/satlog documents under small chunks) under Miri in 16 parallel interpreter processes; any 'Undefined Behavior' report is a violation. A native part that is killed by a signal is re-run with one worker and the run in progress is reported as C14.crash; a run that never returns is <P>.hang. The components are additionally executed (smaller cases, separate seeded stream) by the Miri interpreter emulating a big-endian 64-bit target (s390x), a 32-bit target (i686) and aarch64; model violations and undefined behaviour there are violations.",
    note="Trusted: Miri (stands in for the AddressSanitizer named in the property and is stricter), the red-zone allocator, the models of C02/C11. Miri runs are few (hundreds per quick run, thousands per thorough run) because the interpreter is slow.",
    tech="deterministic simulation with crash injection (caught panics, lying/panicking Read and Write), reference model after each crash; Miri and allocator red zones as memory oracles"),
  "C13": dict(cat="exploration", ref="DESIGN.md §4 C13",
-   text="Seeded search over byte strings x all 12 integer types x both scanner families x scan offsets x every amount of already-buffered data (which selects the 8-byte or the byte-wise path) x read plans for the remainder; the *_multi and the simple variant are both run on a real DeferredReader over the simulated source and compared with a decimal-string reference and with each other. A second component scans whole token streams on ONE reader (tokenizer loop: scan, advance, scan ...), so that state is carried from call to call. The 8-byte kernel is sampled (kernel-sweep mode), the evidence reports how many of the 1969 reachable (digit count, terminator byte) cases were hit. The components are additionally executed (smaller cases, separate seeded stream) by the Miri interpreter emulating a big-endian 64-bit target (s390x) and a 32-bit target (i686); model violations and undefined behaviour there are violations.",
+   text="Seeded search over byte strings x all 12 integer types x both scanner families x scan offsets x every amount of already-buffered data (which selects the 8-byte or the byte-wise path) x read plans for the remainder; the *_multi and the simple variant are both run on a real DeferredReader over the simulated source and compared with a decimal-string reference and with each other. A second component scans whole token streams on ONE reader (tokenizer loop: scan, advance, scan ...), so that state is carried from call to call. The 8-byte kernel is sampled (kernel-sweep mode), the evidence reports how many of the 1969 reachable (digit count, terminator byte) cases were hit. The components are additionally executed (smaller cases, separate seeded stream) by the Miri interpreter emulating a big-endian 64-bit target (s390x), a 32-bit target (i686) and aarch64; model violations and undefined behaviour there are violations.",
    note="Trusted: the decimal-string reference (~40 lines), std's integer Display. Exhaustive enumeration of the kernel is a different technique and is not claimed.",
    tech="deterministic simulation: scanners on the real reader with the buffered amount and refill schedule chosen by the simulator; differential fast-vs-simple plus decimal-string reference"),
  "C16": dict(cat="exploration", ref="DESIGN.md §4 C16",
-   text="Seeded search over short strings on a whitespace/newline alphabet x start offsets x helpers x patterns x pre-buffered amounts x read plans (incl. one byte per read) on a real DeferredReader over the simulated source: returned offset against a reference scanner, nothing consumed, and request-minimality read off the source's call log (no read() issued once the deciding byte was delivered; none at all for the empty pattern); plus sessions of up to 60 helper calls on one reader with advances in between. The components are additionally executed (smaller cases, separate seeded stream) by the Miri interpreter emulating a big-endian 64-bit target (s390x) and a 32-bit target (i686); model violations and undefined behaviour there are violations.",
+   text="Seeded search over short strings on a whitespace/newline alphabet x start offsets x helpers x patterns x pre-buffered amounts x read plans (incl. one byte per read) on a real DeferredReader over the simulated source: returned offset against a reference scanner, nothing consumed, and request-minimality read off the source's call log (no read() issued once the deciding byte was delivered; none at all for the empty pattern); plus sessions of up to 60 helper calls on one reader with advances in between. The components are additionally executed (smaller cases, separate seeded stream) by the Miri interpreter emulating a big-endian 64-bit target (s390x), a 32-bit target (i686) and aarch64; model violations and undefined behaviour there are violations.",
    note="Trusted: reference scanner (~50 lines) and the source log. Small space sampled, not enumerated.",
    tech="deterministic simulation: text helpers on the real reader over a simulated Read seam; delivered-byte accounting from the source log"),
 }
@@ -68,7 +68,7 @@ m = {
               "kind_free_text": "seeded deterministic simulator owning the Read/Write seams (SimSource, SimSink, line-buffered peer, counting allocator), reference models, minimiser, replay"}],
  "checks": [],
  "not_applicable": [{"property_id": k, "reason": v} for k, v in sorted(na.items())],
- "notes": "See DESIGN.md. Exit codes of every command: 0 held, 1 VIOLATION (each replayed in a fresh process first), 2 harness error. VERIF_SEED overrides the fixed default seed.",
+ "notes": "See DESIGN.md. Three native builds of the simulator + library are verdict builds: simdbg (debug assertions and overflow checks on), simrel (off), simnat (simrel with -C target-cpu=native, for the scanner/helper/parser components). Exit codes of every command: 0 held, 1 VIOLATION (each replayed in a fresh process first), 2 harness error. VERIF_SEED overrides the fixed default seed.",
 }
 for pid in sorted(checks):
     c = checks[pid]
